@@ -484,12 +484,23 @@ RUST_KEYWORDS = {'if', 'while', 'for', 'match', 'loop', 'return', 'fn', 'let', '
 
 def all_calls(body):
     """Every call in textual order: path or method name followed by '(' (macros `name!(` included
-    with their '!'); keywords and the Option/Result constructors are left out."""
+    with their '!'); keywords and the Option/Result constructors are left out.  Early exits are part
+    of the list too: `return`, `break`, `continue` and the `?` operator (a function that gives up
+    early where it used to go on does not call anything new)."""
     res = []
-    for m in re.finditer(r'((?:[A-Za-z_]\w*\s*::\s*)*[A-Za-z_]\w*)\s*(!?)\s*\(', body):
+    rx = re.compile(r'((?:[A-Za-z_]\w*\s*::\s*)*[A-Za-z_]\w*)\s*(!?)\s*\(|\b(return|break|continue)\b|(\?)')
+    for m in rx.finditer(body):
+        if m.group(3):
+            res.append(m.group(3))
+            continue
+        if m.group(4):
+            res.append('?')
+            continue
         name = re.sub(r'\s+', '', m.group(1))
         last = name.split('::')[-1]
         if last in RUST_KEYWORDS and not m.group(2):
+            if last == 'return':
+                res.append('return')
             continue
         pre = body[:m.start()].rstrip()
         res.append(('.' if pre.endswith('.') else '') + name + m.group(2))
